@@ -25,10 +25,12 @@ func runC02(c *Ctx) {
 	c.Rule("C02-R2", "entries with errors reach only the error check", 4)
 	c.Rule("C02-R3", "no unchecked type assertion on external AST interfaces", 1)
 	c.Rule("C02-R4", "no indexing/slicing with an unchecked strings.Index result", 1)
+	defer c06ParsersKeepNoState(c, "C02-R4")
 	c.Rule("C02-R5", "slices.Max/Min only on non-empty slices", 1)
 	c.Rule("C02-R6", "optional pointers dereferenced only under a guard", 50)
 	c.Rule("C02-R9", "regexp.MustCompile only on constants, quoted text or validated config", 5)
 	c.Rule("C02-R10", "line accounting: rule line ranges are ordered, the reader consumes whole lines", 12)
+	defer c02LineRangeLiteralsOrdered(c, "C02-R10")
 	defer c01EveryFileIsRead(c, "C02-R2")
 	defer c02ErrorValuesAreComparable(c, "C02-R3")
 	defer c02CommentLinesAreFileLines(c, "C02-R10")
@@ -1780,4 +1782,104 @@ func c02CommentLinesAreFileLines(c *Ctx, R string) {
 	})
 	c.Check(n >= 1 && bad == "", R, "comments.Parse:lines of a comment block are the file's lines", fi.Decl.Pos(), "strings.Split(text, \"\\n\")",
 		bad+": the line a comment problem is reported on no longer matches the file (a bare CR inside a comment line shifts every following comment; the report can land beyond the last line)")
+}
+
+// c02LineRangeLiteralsOrdered: LineRange.Expand (JSON and comment reporters) allocates Last-First+1 lines
+// and panics when the range is reversed. A range written out in a check takes both ends from ONE object
+// (the key and the value of one field, one error, one file), or is the min/max over the same set of
+// objects: two different fields of a rule can stand in either order in the file.
+func c02LineRangeLiteralsOrdered(c *Ctx, R string) {
+	n := 0
+	for _, pkg := range c.P.ModPkgs() {
+		rel := relPkg(pkg.PkgPath)
+		if rel != "internal/checks" && rel != "internal/discovery" && rel != "internal/reporter" && rel != "cmd/pint" {
+			continue
+		}
+		info := pkg.TypesInfo
+		roots := func(e ast.Expr) (fn string, out map[types.Object]bool) {
+			out = map[types.Object]bool{}
+			e = ast.Unparen(e)
+			if call, ok := e.(*ast.CallExpr); ok {
+				if id, ok := call.Fun.(*ast.Ident); ok && (id.Name == "min" || id.Name == "max") {
+					if _, isB := info.Uses[id].(*types.Builtin); isB {
+						fn = id.Name
+						for _, a := range call.Args {
+							if tv, has := info.Types[a]; has && tv.Value != nil {
+								continue
+							}
+							_, sub := rootsOfExpr(info, a)
+							for o := range sub {
+								out[o] = true
+							}
+						}
+						return fn, out
+					}
+				}
+			}
+			_, out = rootsOfExpr(info, e)
+			return "", out
+		}
+		for _, fi := range c.P.AllFuncs() {
+			if fi.Pkg != pkg || fi.Decl.Body == nil || c.P.IsTestFile(fi.Decl.Pos()) {
+				continue
+			}
+			seq := 0
+			for _, cl := range compositeLits(info, fi.Decl.Body, "internal/diags.LineRange") {
+				first, last := litField(cl, "First"), litField(cl, "Last")
+				if first == nil || last == nil {
+					continue
+				}
+				n++
+				seq++
+				ff, fr := roots(first)
+				lf, lr := roots(last)
+				same := len(fr) > 0 && len(fr) == len(lr)
+				for o := range fr {
+					if !lr[o] {
+						same = false
+					}
+				}
+				ok := same && ((ff == "" && lf == "" && len(fr) == 1) || (ff == "min" && lf == "max") || (ff == "min" && lf == "" && len(fr) == 1))
+				c.Check(ok, R, shortFuncName(fi.Name)+":line range #"+itoa(seq)+" takes both ends from the same object(s)", cl.Pos(), exprStr(first)+" .. "+exprStr(last),
+					"a line range runs from `"+exprStr(first)+"` to `"+exprStr(last)+"`: the two come from different parts of the rule, which can stand in either order in the file; a reversed range panics in LineRange.Expand (JSON output, pull-request comments)")
+			}
+		}
+	}
+	c.Check(n >= 12, R, "line range literals enumerated", token.NoPos, itoa(n), "fewer line range literals than confirmed ("+itoa(n)+")")
+}
+
+// rootsOfExpr lists the local variables / parameters an expression reads at the root of its selector chains.
+func rootsOfExpr(info *types.Info, e ast.Expr) (string, map[types.Object]bool) {
+	out := map[types.Object]bool{}
+	ast.Inspect(e, func(n ast.Node) bool {
+		switch x := n.(type) {
+		case *ast.SelectorExpr:
+			cur := ast.Expr(x)
+			for {
+				switch y := ast.Unparen(cur).(type) {
+				case *ast.SelectorExpr:
+					cur = y.X
+					continue
+				case *ast.CallExpr:
+					cur = y.Fun
+					continue
+				case *ast.IndexExpr:
+					cur = y.X
+					continue
+				case *ast.Ident:
+					if v, ok := info.Uses[y].(*types.Var); ok && !v.IsField() {
+						out[v] = true
+					}
+				}
+				break
+			}
+			return false
+		case *ast.Ident:
+			if v, ok := info.Uses[x].(*types.Var); ok && !v.IsField() {
+				out[v] = true
+			}
+		}
+		return true
+	})
+	return "", out
 }
